@@ -448,7 +448,8 @@ func (loop *EventLoop) doImmediate(i *Immediate) {
 }
 
 func (loop *EventLoop) clearTimeout(t *Timer) {
-	if t != nil && !t.cancelled {
+	// a handle that was not created by this package (e.g. clearTimeout({})) has no callback
+	if t != nil && t.fn != nil && !t.cancelled {
 		t.cancelled = true
 		loop.jobCount--
 		if t.doCancel() {
@@ -458,7 +459,7 @@ func (loop *EventLoop) clearTimeout(t *Timer) {
 }
 
 func (loop *EventLoop) clearInterval(i *Interval) {
-	if i != nil && !i.cancelled {
+	if i != nil && i.fn != nil && !i.cancelled {
 		i.cancelled = true
 		loop.jobCount--
 		i.doCancel()
@@ -480,7 +481,7 @@ func (loop *EventLoop) removeJob(job *job) {
 }
 
 func (loop *EventLoop) clearImmediate(i *Immediate) {
-	if i != nil && !i.cancelled {
+	if i != nil && i.fn != nil && !i.cancelled {
 		i.cancelled = true
 		loop.jobCount--
 	}
